@@ -25,6 +25,9 @@ def main():
         print("no such property check: " + a.pid)
         return 2
     ctx.targets, ctx.prop_file = list(mod.COQ_TARGETS), mod.PROP_FILE
+    extra_props = list(getattr(mod, "PROP_FILES_THOROUGH", [])) if tier == "thorough" else []
+    if tier == "thorough":
+        ctx.targets += list(getattr(mod, "COQ_TARGETS_THOROUGH", [])) + [f[:-2] + ".vo" for f in extra_props]
     if a.replay:
         ctx.replay = json.load(open(a.replay))
         try:
@@ -42,6 +45,12 @@ def main():
             ctx.problem("proof", "forbidden vernacular in the development", hits)
         if built:
             ctx.coq_props(ctx.prop_file)
+            for f in extra_props:
+                ob, di, ax = list(ctx.obligations), list(ctx.discharged), dict(ctx.axioms)
+                ctx.coq_props(f)
+                ctx.obligations, ctx.discharged = ob + ctx.obligations, di + ctx.discharged
+                ax.update(ctx.axioms)
+                ctx.axioms = ax
             if tier == "thorough" and os.environ.get("VERIF_COQCHK", "1") == "1":
                 rc, out = vlib.sh(["coqchk", "-silent", "-o"] + vlib.COQ_Q + ["BVprops." + a.pid], timeout=1800,
                                   cwd=vlib.COQ)
